@@ -75,7 +75,7 @@ class Recorder:
 
     # -- queries --------------------------------------------------------------------------
     def query(self, label, hyps, goal, *, key=None, names=None, replay=None, timeout_ms=20000,
-              nonlinear=None, twin=True, info=None):
+              nonlinear=None, twin=True, info=None, prefer=None):
         """Prove hyps => goal.  `replay(cex) -> (reproduced: bool, detail: dict)` runs the real
         API on the counterexample.  `key` identifies the violation class for known findings."""
         hyps = [h for h in hyps if not z3.is_true(h)]
@@ -96,7 +96,14 @@ class Recorder:
             if r == "unsat":
                 rec["status"] = "vacuous"
         if v.status == "violated":
-            cex = smt.model_dict(v.model, names)
+            model = v.model
+            # prefer a small / replay-friendly counterexample when one exists (staged extra constraints)
+            for extra in (prefer or []):
+                r2, m2 = smt.check_sat(list(hyps) + list(extra) + [z3.Not(goal)], min(timeout_ms, 5000), nonlinear)
+                if r2 == "sat":
+                    model = m2
+                    break
+            cex = smt.model_dict(model, names)
             rec["cex"] = smt.jsonable(cex)
             if replay is not None and not os.environ.get("SYMX_MUTANT_RUN"):
                 try:
@@ -285,13 +292,17 @@ def finish(pid, tier, seed, results, explanation, bounds, trusted_base, level, t
     lines = []
     new_violations = []
     known_hits = []
+    confirmed_keys = {r["key"] for r in violated if r.get("reproduced") is True}
     for r in violated:
         k = next((kf for kf in known if kf.get("status", "open") == "open" and kf["key"] == r["key"]), None)
-        if r.get("reproduced") is False:
+        if r.get("reproduced") is not True and r["key"] in confirmed_keys:
+            # same violation class already confirmed on the real code by another counterexample
+            r = {**r, "unconfirmed_duplicate": True}
+        elif r.get("reproduced") is False:
             errors.append({**r, "why": "counterexample did not reproduce on the real code (encoding or stub wrong)"})
             continue
-        if r.get("reproduced") is None and "replay_detail" in r:
-            errors.append({**r, "why": "replay machinery failed: " + str(r.get("replay_detail"))[:500]})
+        elif r.get("reproduced") is None and "replay_detail" in r:
+            errors.append({**r, "why": "replay machinery could not run this counterexample: " + str(r.get("replay_detail"))[:500]})
             continue
         if k is not None:
             known_hits.append((k, r))
@@ -306,10 +317,15 @@ def finish(pid, tier, seed, results, explanation, bounds, trusted_base, level, t
         lines.append(f"KNOWN-FINDING: property={pid} {k['what']}")
 
     rdir = os.path.join(VERIF, "replays", pid)
+    if os.path.isdir(rdir):
+        for fn in os.listdir(rdir):
+            if fn.endswith(".json"):
+                os.unlink(os.path.join(rdir, fn))
     by_key = {}
     for r in new_violations:
         by_key.setdefault(r["key"], []).append(r)
     for key, rs in by_key.items():
+        rs = sorted(rs, key=lambda x: 0 if x.get("reproduced") is True else 1)
         r = rs[0]
         os.makedirs(rdir, exist_ok=True)
         h = hashlib.sha256(key.encode()).hexdigest()[:12]
